@@ -106,7 +106,7 @@ def rule_ab(ctx: Context, R: Reporter, fin: FuncInfo, run: FuncInfo, wfn: FuncIn
             problems = []
             # a value of which nothing is known (no temperature, no kind: it came out of code the interpreter does not
             # follow -- an object attribute, a memo entry) is not evidence of a mismatch
-            opaque = [nm_ for (nm_, v_) in (("weights", w), ("ESS", e)) if not all_at(v_) and not all_kinds(v_)]
+            opaque = [nm_ for (nm_, v_) in (("weights", w), ("ESS", e)) if not all_at(v_) and not all_kinds(v_) and getattr(v_, "src", "") == "opaque"]
             if opaque:
                 raise AnalysisError(f"C05.a: the {' / '.join(opaque)} handed to `{unparse(ev.call)[:50]}` cannot be traced to an evaluation of the weight function "
                                     f"(values read from objects or containers the path interpreter does not follow)")
